@@ -66,6 +66,8 @@ pub enum Checker {
     ByteEq,
     Panicking,
     Recording,
+    /// byte equality, but a mismatch is reported with an error of kind NotFound
+    ByteEqNotFound,
 }
 
 #[derive(Clone, Debug, PartialEq, Eq, Hash, Serialize, Deserialize)]
@@ -108,9 +110,34 @@ fn recording_checker(log: CheckLog) -> impl Fn(&mut std::fs::File, &mut std::fs:
     }
 }
 
+fn notfound_checker(a: &mut std::fs::File, b: &mut std::fs::File) -> std::io::Result<()> {
+    let x = read_all(a)?;
+    let y = read_all(b)?;
+    if x == y {
+        Ok(())
+    } else {
+        Err(std::io::Error::new(std::io::ErrorKind::NotFound, "copies differ (reported as NotFound)"))
+    }
+}
+
+thread_local! {
+    /// 0 = fresh CacheBuilder::new(); 1 = a builder that was already used once (`take()` resets it);
+    /// 2 = CacheBuilder::default(). In modes 1 and 2 auto_sync is left at its default (true) unless the spec disables it.
+    static BUILDER_MODE: std::cell::Cell<u8> = const { std::cell::Cell::new(0) };
+}
+
+pub fn set_builder_mode(m: u8) {
+    BUILDER_MODE.with(|b| b.set(m));
+}
+
 pub fn open_stack(root: &Path, s: &StackSpec) -> Handle {
     let log: CheckLog = Arc::new(Mutex::new(Vec::new()));
-    let mut b = CacheBuilder::new();
+    let mode = BUILDER_MODE.with(|b| b.get());
+    let mut b = if mode == 2 { CacheBuilder::default() } else { CacheBuilder::new() };
+    if mode == 1 {
+        // first use of the builder: some unrelated cache; `take()` leaves the builder reset
+        let _unrelated = b.plain_reader(root.join("unrelated-reader")).take().build();
+    }
     match &s.writer {
         Some(DirSpec::Plain { dir, cap }) => {
             b.plain_writer(root.join(dir), *cap);
@@ -141,8 +168,13 @@ pub fn open_stack(root: &Path, s: &StackSpec) -> Handle {
         Checker::Recording => {
             b.consistency_checker(recording_checker(log.clone()));
         }
+        Checker::ByteEqNotFound => {
+            b.consistency_checker(notfound_checker);
+        }
     }
-    b.auto_sync(s.auto_sync);
+    if mode == 0 || !s.auto_sync {
+        b.auto_sync(s.auto_sync);
+    }
     Handle::Stack(b.take().build(), log)
 }
 
@@ -169,6 +201,9 @@ pub fn open_readonly(root: &Path, readers: &[DirSpec], checker: Checker) -> Hand
         }
         Checker::Recording => {
             b.consistency_checker(recording_checker(log.clone()));
+        }
+        Checker::ByteEqNotFound => {
+            b.consistency_checker(notfound_checker);
         }
     }
     Handle::Ro(b.take().build(), log)
@@ -219,6 +254,15 @@ pub struct Op {
     /// set/put: instead of a fresh file, the source is a new hard link to this existing file
     #[serde(default)]
     pub link_from: Option<String>,
+}
+
+thread_local! {
+    /// mode the application gives its NamedTempFile before set_temp_file/put_temp_file (0 = leave the default 0600)
+    static TEMP_MODE: std::cell::Cell<u32> = const { std::cell::Cell::new(0) };
+}
+
+pub fn set_temp_mode(m: u32) {
+    TEMP_MODE.with(|t| t.set(m));
 }
 
 #[derive(Clone, Debug, PartialEq, Eq, Serialize, Deserialize)]
@@ -405,6 +449,11 @@ fn exec_inner(root: &Path, h: &Handle, op: &Op, side: &Arc<Mutex<Side>>) -> Ret 
                 std::fs::create_dir_all(staging(root)).unwrap();
                 let mut t = tempfile::NamedTempFile::new_in(staging(root)).unwrap();
                 write_chunked(t.as_file_mut(), &data).unwrap();
+                let m = TEMP_MODE.with(|x| x.get());
+                if m != 0 {
+                    use std::os::unix::fs::PermissionsExt;
+                    t.as_file().set_permissions(std::fs::Permissions::from_mode(m)).unwrap();
+                }
                 t
             });
             // make the descriptor visible to the shim's table (it was opened while bypassed)
